@@ -1,4 +1,5 @@
 """C14 - Edits through the sequence interface keep every derived view coherent."""
+import io
 import itertools
 
 from vp import asm, gen, workload
@@ -31,7 +32,7 @@ CONFIG = dict(
 TWINS = [(b"I1\n", b"I01\n"), (b"I0\n", b"I00\n"), (b"G\x00\x00\x00\x00\x00\x00\x00\x00", b"G\x80\x00\x00\x00\x00\x00\x00\x00"),
          (b"F0.0\n", b"F-0.0\n"), (b"I1\n", b"I1\n"), (b"L1L\n", b"L1L\n")]
 
-EDITS = ["set_twin", "del_insert_twin", "extend_failing", "iadd_failing", "set_slice_failing", "set_negative", "del_negative", "insert_negative",
+EDITS = ["insert_big_constant", "set_twin", "del_insert_twin", "extend_failing", "iadd_failing", "set_slice_failing", "set_negative", "del_negative", "insert_negative",
          "set_stepped_slice", "del_stepped_slice", "pop_negative",
          "insert_mid", "insert_front", "insert_before_stop", "set_int", "set_slice", "del_int", "del_slice",
          "append", "extend", "iadd", "pop", "pop_i", "remove", "reverse", "clear_refill",
@@ -86,7 +87,16 @@ def apply_edit(f, p, name, rng, pool, original):
             if j >= k:
                 raise RuntimeError("vp: iterable failed half-way through the edit")
             yield op
-    if name in ("set_twin", "del_insert_twin"):
+    if name == "insert_big_constant":
+        # an opcode larger than the usual I/O buffer sizes, between small ones
+        size = rng.choice([8192, 20000, 65536, 70000])
+        blob = (b"B" + size.to_bytes(4, "little") + b"y" * size) if rng.random() < 0.5 else \
+            (b"X" + size.to_bytes(4, "little") + b"x" * size)
+        big = f.Pickled.load(blob + b".")[0]
+        i = rng.randint(0, n)
+        p.insert(i, big)
+        p.insert(i + 1, f.Pickled.load(b"0.")[0])
+    elif name in ("set_twin", "del_insert_twin"):
         one_of = lambda b: f.Pickled.load(b + b".")[0]  # noqa: E731
         for i, op in enumerate(p):
             for a, b in TWINS:
@@ -234,6 +244,17 @@ def run_history(ctx, f, analysis, start_label, start, history, hseed):
                                "edited": str(got2[bad2[0]])[:300], "recreated": str(want2[bad2[0]])[:300]})
                 break
         cat = b"".join(op.data for op in p)
+        buf = io.BytesIO()
+        try:
+            p.dump(buf)
+        except Exception as e:
+            buf = io.BytesIO(b"EXC:" + type(e).__name__.encode())
+        if buf.getvalue() != cat:
+            agg.violation(f"dump-file-not-concatenation:after-{name}",
+                          "dump(file) writes something else than the concatenation of the current opcodes' encodings in order",
+                          {"label": start_label, "hex": start.hex(), "history": history, "hseed": hseed, "steps": steps,
+                           "written_len": len(buf.getvalue()), "expected_len": len(cat)})
+            break
         if p.dumps() != cat or fresh.dumps() != cat:
             agg.violation(f"dumps-not-concatenation:after-{name}", "dumps() differs from the concatenation of opcode data",
                           {"label": start_label, "hex": start.hex(), "history": history, "hseed": hseed, "steps": steps})
